@@ -46,6 +46,11 @@ open MdIt.Inline
 #check @erase_trailingTextPush
 #check @erase_trailingTextPop
 #check @linkRule_bounds
+#check @parseInline_no_panic_flat
+#check @ruleEmph_total
+#check @scanAndMatch_total
+#check @tokLoop_flat
+#check @init_good
 #print axioms inline_rule_progress_text
 #print axioms inline_rule_progress_newline
 #print axioms inline_rule_progress_escape
@@ -92,3 +97,8 @@ open MdIt.Inline
 #print axioms erase_trailingTextPush
 #print axioms erase_trailingTextPop
 #print axioms linkRule_bounds
+#print axioms parseInline_no_panic_flat
+#print axioms ruleEmph_total
+#print axioms scanAndMatch_total
+#print axioms tokLoop_flat
+#print axioms init_good
